@@ -85,7 +85,6 @@ class GenerateWasmVisitor(Visitor.DefaultVisitor):
         def __init__(self):
             self.__module = WebAssembly.Module()
             self.__code = None
-            self.__functionCount = 0
             self.__refToLocalMap = {}
 
         def SetReferenceToLocalMap(self, refToLocalMap: Dict[int, int]):
@@ -106,13 +105,18 @@ class GenerateWasmVisitor(Visitor.DefaultVisitor):
         def Code(self):
             return self.__code
 
-        def OnEnterFunction(self, functionName: str):
+        def OnEnterFunction(
+            self, functionName: str, functionType: WebAssembly.FunctionType
+        ):
             self.__code = WebAssembly.Code()
 
+            # Every function needs an entry in the type and in the function
+            # section; the export refers to the function index
+            typeIndex = self.__module.AddFunctionType(functionType)
+            functionIndex = self.__module.AddFunction(typeIndex)
             self.__module.AddExport(
-                WebAssembly.Export(self.__functionCount, functionName)
+                WebAssembly.Export(functionIndex, functionName)
             )
-            self.__functionCount += 1
 
             self.__refToLocalMap = {}
 
@@ -214,12 +218,12 @@ class GenerateWasmVisitor(Visitor.DefaultVisitor):
         )
 
     def v_Function(self, function: LinearIR.Function, ctx: Context):
-        ctx.OnEnterFunction(function.Name)
-        assert ctx.Code
-
         functionType = _ConvertFunctionType(
             cast(LinearIR.FunctionType, function.Type)
         )
+
+        ctx.OnEnterFunction(function.Name, functionType)
+        assert ctx.Code
 
         # Check if function is exported - for now assume yes
 
